@@ -8,6 +8,7 @@ whatever connections the step left open.
 
 import gc
 import io
+import logging
 import os
 import sys
 import time
@@ -86,6 +87,7 @@ def run(argv, keep_stdout=False):
     sys.stdout = out
     sys.stderr = io.StringIO()
     status, exc_type, exc_msg, frame, frames = 0, None, None, None, ()
+    logging.getLogger("spowtd").setLevel(logging.NOTSET)     # a new process starts with default levels
     time.sleep = _sim_sleep
     try:
         try:
